@@ -110,7 +110,7 @@ func main() {
 		return
 	}
 	if *dump != "" {
-		w, err := Load(*repo, *tier, false)
+		w, err := Load(*repo, *tier, *tier == "thorough")
 		if err != nil {
 			fmt.Println("load failed:", err)
 			os.Exit(2)
